@@ -78,7 +78,7 @@ def run_config(chk, tier, cfgname):
 
 def run(chk, tier):
     from gcv import heap_check
-    heap_check.report(chk, tier, owns=("H1", "PANIC"))
+    heap_check.report(chk, tier, owns=("H1", "PANIC"), fault_owns=("H1",))
     cfgs = typestate.configs(tier)
     chk.extra["feature_configs"] = cfgs
     for c in cfgs:
